@@ -14,7 +14,7 @@ from pulsarbat.pulsar.phase import Phase, FractionalPhase
 from harness.common import float_lit, zlit, listlit
 
 VFILES = ['Model/Phase2.v', 'Proofs/TwoSumExact.v', 'Proofs/Floor.v', 'Proofs/DayFrac.v', 'Proofs/DayFrac3.v', 'Proofs/PhaseAdd.v',
-          'Proofs/PhaseCmp.v', 'Proofs/PhaseMore.v', 'Proofs/DayFracTail.v', 'Proofs/TwoProduct.v', 'Proofs/PhaseMul.v', 'Proofs/PhaseAbs.v', 'Proofs/DivChain.v', 'Proofs/PhaseDiv.v', 'Model/PhaseDivmod.v', 'Model/PhaseOrd.v', 'Proofs/PhaseArgmin.v', 'Proofs/PhaseSort.v', 'Proofs/PhaseRemainder.v', 'Proofs/PhaseDivmodProofs.v', 'Proofs/PhaseDivmodFloor.v', 'Props/C07.v']
+          'Proofs/PhaseCmp.v', 'Proofs/PhaseMore.v', 'Proofs/DayFracTail.v', 'Proofs/TwoProduct.v', 'Proofs/PhaseMul.v', 'Proofs/PhaseAbs.v', 'Proofs/DivChain.v', 'Proofs/PhaseDiv.v', 'Model/PhaseDivmod.v', 'Model/PhaseOrd.v', 'Proofs/PhaseArgmin.v', 'Proofs/PhaseSort.v', 'Proofs/PhaseRemainder.v', 'Proofs/PhaseDivmodProofs.v', 'Proofs/PhaseDivmodFloor.v', 'Proofs/FmodSpec.v', 'Proofs/FloorDivSpec.v', 'Proofs/PhaseDivmodFinal.v', 'Props/C07.v']
 REAL_AX = {'ClassicalDedekindReals.sig_forall_dec', 'ClassicalDedekindReals.sig_not_dec',
            'FunctionalExtensionality.functional_extensionality_dep', 'Classical_Prop.classic', 'float'}
 TOL = Fr(1, 2 ** 52)
@@ -464,8 +464,8 @@ def run(ctx):
                     ctx.fail('divmod_identity', dict(inp, element=k), impl=[float(qa[k]), float(er)])
                     break
 
-    # ---- numpy's float floor_divide / remainder themselves (the external routine the floor theorem C07_divmod_floor assumes to
-    # return the exact floor): model np_divmod vs numpy bit for bit, and numpy vs the exact rational floor on the theorem's domain
+    # ---- numpy's float floor_divide / remainder themselves (the external routine whose model np_divmod is proved to return the exact floor,
+    # C07_floor_divide_exact): model np_divmod vs numpy bit for bit, and numpy vs the exact rational floor on the theorem's domain
     for c in range(150 if ctx.tier == 'quick' else 3000):
         kind = rng.choice(['near_multiple', 'random', 'small', 'negative_divisor'])
         b = float(rng.choice([1.0, 0.5, 3.0, 0.3, 7.5, 1 / 3, 2.0 ** -10, 2.0 ** 10, rng.uniform(2.0 ** -10, 2.0 ** 10)]))
